@@ -1,4 +1,5 @@
 import Mitx.Model.StringG
+import Mitx.Lemmas.StringClean
 import Mathlib.Tactic.Linarith
 /-! # C18 — StringGrader matches exactly the inputs equal after the configured cleaning
 
@@ -192,5 +193,32 @@ theorem accept_any_iff (lower : List Char → List Char) (cfg : Cfg) (fe : Bool)
         by_contra hc; exact h ⟨by omega, by omega⟩
       simp only [student, minLen] at h1 h2
       simp only [h2, h1, ↓reduceIte]; exact ⟨_, rfl⟩
+
+
+/-! ## no other character is ever ignored or altered -/
+
+/-- **Nothing but whitespace and case is ever touched.** Whatever the four flags, the non-whitespace characters of the cleaned
+    string are exactly the non-whitespace characters of the input, in the same order — case-folded character by character when
+    `case_sensitive` is off (`lc` is the per-character folding, which never turns a character into whitespace or back), and
+    untouched otherwise. No other character is dropped, added, reordered or altered, for all 16 flag combinations. -/
+theorem clean_preserves_nonspace (lc : Char → Char) (hlc : ∀ c, pyIsSpace (lc c) = pyIsSpace c) (f : Flags) (s : List Char) :
+    (clean (List.map lc) f s).filter nonWs =
+      if f.caseSensitive then s.filter nonWs else (s.filter nonWs).map lc :=
+  clean_filter lc hlc f s
+
+/-- instance for the executable case folding of the model (ASCII + Latin-1) -/
+theorem clean_preserves_nonspace_exec (f : Flags) (s : List Char) :
+    (clean lowerL f s).filter nonWs = if f.caseSensitive then s.filter nonWs else (s.filter nonWs).map lowerChar :=
+  clean_filter lowerChar lowerChar_ws f s
+
+/-- hence two inputs that match after cleaning have the same non-whitespace characters up to case: matching can never hide a
+    changed, missing or extra visible character -/
+theorem match_implies_same_visible (lc : Char → Char) (hlc : ∀ c, pyIsSpace (lc c) = pyIsSpace c) (f : Flags) (s t : List Char)
+    (h : clean (List.map lc) f s = clean (List.map lc) f t) :
+    (if f.caseSensitive then s.filter nonWs else (s.filter nonWs).map lc) =
+      (if f.caseSensitive then t.filter nonWs else (t.filter nonWs).map lc) := by
+  rw [← clean_filter lc hlc f s, ← clean_filter lc hlc f t, h]
+
+example : clean lowerL ⟨false, true, false, true⟩ "  Hello \t\r\n  WÖRLD ".toList = "hello wörld".toList := by decide
 
 end C18
